@@ -122,11 +122,15 @@ REG = unyt.unit_registry.default_unit_registry
 x0, a0, ops, rounds, reps = {x0!r}, {a0!r}, {ops!r}, {rounds!r}, {reps!r}
 _fac = {{}}
 def by_hand(x, a, b):
-    # Unit.get_conversion_factor applied by hand, on long-lived units
+    # Unit.get_conversion_factor applied by hand, on long-lived units; b = unit name or ("base", system)
     if (a, b) not in _fac:
-        _fac[a, b] = Unit(a, registry=REG).get_conversion_factor(Unit(b, registry=REG))
+        ua = Unit(a, registry=REG)
+        ub = ua.get_base_equivalent(b[1]) if isinstance(b, tuple) else Unit(b, registry=REG)
+        _fac[a, b] = ua.get_conversion_factor(ub)
     f, o = _fac[a, b]
     return x * f - (o if o else 0.0), abs(x * f) + abs(o or 0.0)
+def target_of(op):
+    return op[1] if op[0] in ("C", "P") else (op[3] if op[0] in ("T", "I") else ("base", op[1] if op[0] == "PB" else op[3]))
 def play():
     obj = unyt_array([x0], a0)
     label = a0
@@ -141,12 +145,23 @@ def play():
                 out.append((op, pre, label, float(r[0])))
             elif op[0] == "T":
                 out.append((op, op[1], op[2], unyt_quantity(op[1], op[2]).to_value(op[3])))
-            else:
+            elif op[0] == "I":
                 t = unyt_array([op[1]], op[2]); t.convert_to_units(op[3]); out.append((op, op[1], op[2], float(t.d[0])))
+            elif op[0] == "PB":
+                pre = float(obj.d[0])
+                r = obj.in_base(op[1]) if op[2] == 0 else getattr(obj, "in_" + op[1])()
+                out.append((op, pre, label, float(r.d[0])))
+            elif op[0] == "TB":
+                q = unyt_quantity(op[1], op[2])
+                out.append((op, op[1], op[2], float((q.in_base(op[3]) if op[4] == 0 else getattr(q, "in_" + op[3])()).d)))
+            else:
+                t = unyt_array([op[1]], op[2])
+                t.convert_to_base(op[3]) if op[4] == 0 else getattr(t, "convert_to_" + op[3])()
+                out.append((op, op[1], op[2], float(t.d[0])))
     return out
 for rep in range(reps):
     for i, (op, pre, label, got) in enumerate(play()):
-        tg = op[1] if op[0] in "CP" else op[3]
+        tg = target_of(op)
         want, m = by_hand(pre, label, tg)
         assert abs(got - want) <= 64 * 2.0 ** -52 * (m + abs(got)), (
             f"call {{i}} of repetition {{rep}}: {{op}} on {{pre}} {{label}} -> {{tg}} returned {{got}}, "
@@ -174,11 +189,27 @@ def play_history(x0, a0, ops, rounds):
                 out.append((op, pre, label, float(r[0])))
             elif op[0] == "T":
                 out.append((op, op[1], op[2], unyt_quantity(op[1], op[2]).to_value(op[3])))
-            else:
+            elif op[0] == "I":
                 t = unyt_array([op[1]], op[2])
                 t.convert_to_units(op[3])
                 out.append((op, op[1], op[2], float(t.d[0])))
+            elif op[0] == "PB":
+                pre = float(obj.d[0])
+                r = obj.in_base(op[1]) if op[2] == 0 else getattr(obj, "in_" + op[1])()
+                out.append((op, pre, label, float(r.d[0])))
+            elif op[0] == "TB":
+                q = unyt_quantity(op[1], op[2])
+                out.append((op, op[1], op[2], float((q.in_base(op[3]) if op[4] == 0 else getattr(q, "in_" + op[3])()).d)))
+            else:
+                t = unyt_array([op[1]], op[2])
+                t.convert_to_base(op[3]) if op[4] == 0 else getattr(t, "convert_to_" + op[3])()
+                out.append((op, op[1], op[2], float(t.d[0])))
     return out
+
+
+def target_of(op):
+    """unit name, or ("base", system) for the base-system routes"""
+    return op[1] if op[0] in ("C", "P") else (op[3] if op[0] in ("T", "I") else ("base", op[1] if op[0] == "PB" else op[3]))
 
 
 def histories(chk, fam, famkind, names, units, tier, hist_lines, hist_expect):
@@ -194,16 +225,27 @@ def histories(chk, fam, famkind, names, units, tier, hist_lines, hist_expect):
     pools = [g for g in bydim.values() if len(g) >= 2]
     if not pools:
         return
-    nh = (3 if famkind in ("temperature", "angle") else 1) if tier == "quick" else 8
+    nh = (10 if famkind in ("temperature", "angle") else 2) if tier == "quick" else (30 if famkind in ("temperature", "angle") else 8)
     rounds = 6
     eps = EPS["float64"]
     fac = {}
 
     def by_hand(x, a, b):
         if (a, b) not in fac:
-            fac[a, b] = units[a].get_conversion_factor(units[b])
-        f, o = fac[a, b]
+            ub = units[a].get_base_equivalent(b[1]) if isinstance(b, tuple) else units[b]
+            fac[a, b] = units[a].get_conversion_factor(ub) + (abs(ub.base_offset),)
+        f, o, _ = fac[a, b]
         return x * f - (o if o else 0.0), abs(x * f) + abs(o or 0.0), abs(f)
+
+    def base_ok(a, sysname):
+        """the base-system routes are compared by hand outside the EM table's dimensions only"""
+        if famkind == "em":
+            return False
+        try:
+            by_hand(1.0, a, ("base", sysname))
+            return True
+        except Exception:
+            return False
 
     for h in range(nh):
         pool = rng.choice(pools)
@@ -219,14 +261,38 @@ def histories(chk, fam, famkind, names, units, tier, hist_lines, hist_expect):
         a0 = rng.choice(srcs)
         x0 = float(gen.data(rng, (), "float64", -1, 3))
         ops = []
-        for _ in range(rng.randint(3, 6)):
-            k = rng.choice("CPTTTII")
-            if k == "C":
+        # half of the histories are "focused": one route, one target (or system), only the source
+        # unit varies from call to call — the pattern in which any state kept between calls and
+        # keyed on less than the data the factor depends on shows
+        focus = rng.choice(["T", "I", "TB", "IB"]) if rng.random() < 0.5 else None
+        if focus and srcs is pool:
+            groups = {}
+            for n in pool:
+                groups.setdefault(units[n].base_value, []).append(n)
+            groups = [g for g in groups.values() if len({units[n].base_offset for n in g}) >= 2]
+            if groups:
+                srcs = rng.choice(groups)
+        ftarget = rng.choice(tgts)
+        fsys = rng.choice(["mks", "cgs"])
+        for _ in range(rng.randint(4, 7)):
+            k = focus or rng.choice("CPTTTIIBBB")
+            if k == "B":
+                k = rng.choice(["PB", "TB", "TB", "IB"])
+            if k in ("PB", "TB", "IB"):
+                sysname = fsys if focus else rng.choice(["mks", "cgs"])
+                src = rng.choice(srcs)
+                if k == "PB" and all(base_ok(n, sysname) for n in set(srcs + tgts)):
+                    ops.append(("PB", sysname, rng.randint(0, 1)))
+                elif k != "PB" and base_ok(src, sysname):
+                    ops.append((k, float(gen.data(rng, (), "float64", -1, 3)), src, sysname, rng.randint(0, 1)))
+            elif k == "C":
                 ops.append(("C", rng.choice(srcs + tgts)))
             elif k == "P":
                 ops.append(("P", rng.choice(tgts), rng.randint(0, 2)))
             else:
-                ops.append((k, float(gen.data(rng, (), "float64", -1, 3)), rng.choice(srcs), rng.choice(tgts)))
+                ops.append((k, float(gen.data(rng, (), "float64", -1, 3)), rng.choice(srcs), ftarget if focus else rng.choice(tgts)))
+        if not ops:
+            continue
         try:
             out = play_history(x0, a0, ops, rounds)
         except Exception as e:
@@ -240,30 +306,35 @@ def histories(chk, fam, famkind, names, units, tier, hist_lines, hist_expect):
         tols = []
         err = 0.0
         for i, (op, pre, label, got) in enumerate(out):
-            tg = op[1] if op[0] in "CP" else op[3]
+            tg = target_of(op)
             want, m, f = by_hand(pre, label, tg)
             chk.count("history-op:" + op[0])
             if not np.isfinite(got) or abs(got - want) > 64 * eps * (m + abs(got)):
                 if not failed:
                     failed = True
-                    route = {"C": "convert_to_units", "P": "to_value/to/in_units", "T": "temporary.to_value", "I": "temporary.convert_to_units"}[op[0]]
+                    route = {"C": "convert_to_units", "P": "to_value/to/in_units", "T": "temporary.to_value", "I": "temporary.convert_to_units",
+                             "PB": "in_base", "TB": "temporary.in_base", "IB": "temporary.convert_to_base"}[op[0]]
                     chk.fail(f"history|{famkind}|{route}",
                              f"call {i} of a conversion history: {op} on {pre} {label} returned {got}, get_conversion_factor applied by hand gives {want}"
                              " (the result depends on earlier conversions)",
-                             {"python": HIST_REPLAY.format(x0=x0, a0=a0, ops=ops, rounds=rounds, reps=30), "units": [label, tg], "history": [a0] + [list(o) for o in ops]})
+                             {"python": HIST_REPLAY.format(x0=x0, a0=a0, ops=ops, rounds=rounds, reps=30), "units": [label, str(tg)], "history": [a0] + [list(o) for o in ops]})
             # error carried by the in-place chain of the model vs the implementation
-            t_i = 512 * eps * (m + abs(got) + abs(units[label].base_offset) + abs(units[tg].base_offset))
+            t_i = 512 * eps * (m + abs(got) + abs(units[label].base_offset) + fac[label, tg][2])
             if op[0] == "C":
                 err = err * f + t_i
                 tols.append(err)
-            elif op[0] == "P":
+            elif op[0] in ("P", "PB"):
                 tols.append(err * f + t_i)
             else:
                 tols.append(t_i)
-            if op[0] in "CP":
+            if op[0] in ("C", "P"):
                 wire += [op[0]] + list(map(str, gen.expr_wire(units[tg].expr)))
-            else:
+            elif op[0] in ("T", "I"):
                 wire += [op[0], str(core.f2b(op[1]))] + list(map(str, gen.expr_wire(units[op[2]].expr))) + list(map(str, gen.expr_wire(units[tg].expr)))
+            elif op[0] == "PB":
+                wire += ["PB", op[1]]
+            else:
+                wire += [op[0], str(core.f2b(op[1]))] + list(map(str, gen.expr_wire(units[op[2]].expr))) + [op[3]]
         hist_lines.append("\t".join(wire))
         hist_expect.append((fam, a0, ops, [o[3] for o in out], tols))
 
